@@ -43,6 +43,7 @@ pub fn def_json(def: &LRNonStreamingLexerDef<DefaultLexerTypes<u32>>) -> Value {
                 Some((id, StartStateOperation::Pop)) => (3, id),
             };
             json!({"named": r.name().is_some(), "name": r.name().unwrap_or(""),
+                   "name_cp": r.name().unwrap_or("").chars().map(|c| c as u32).collect::<Vec<_>>(),
                    "tok": r.tok_id().map(|x| x as i64).unwrap_or(-1),
                    "name_span": [r.name_span().start(), r.name_span().end()],
                    "re": r.re_str(), "re_cp": r.re_str().chars().map(|c| c as u32).collect::<Vec<_>>(),
@@ -56,7 +57,8 @@ pub fn def_json(def: &LRNonStreamingLexerDef<DefaultLexerTypes<u32>>) -> Value {
             let d = format!("{:?}", s);
             let id = d.split("id: ").nth(1).and_then(|x| x.split(',').next()).and_then(|x| x.trim().parse::<usize>().ok()).unwrap_or(usize::MAX);
             let excl = d.contains("exclusive: true");
-            json!({"id": id, "name": s.name(), "excl": excl, "span": [s.name_span().start(), s.name_span().end()]})
+            json!({"id": id, "name": s.name(), "name_cp": s.name().chars().map(|c| c as u32).collect::<Vec<_>>(),
+                   "excl": excl, "span": [s.name_span().start(), s.name_span().end()]})
         })
         .collect::<Vec<_>>();
     json!({"rules": rules, "states": states})
